@@ -307,8 +307,14 @@ def refine_hmc(V, stats, h, ev, w, rec, seq0):
                "the trajectory %r -> %r (H0=%.9g, H1=%.9g)" % (t0.tolist(), t1.tolist(), H0, H1))
         # reversibility of the actual proposal (measured by the recorder right after the forward run)
         err = cl[6]
+        im_ = h.cfg["knobs"].get("inverse_mass")
+        imax_ = float(np.max(np.abs(np.asarray(im_, dtype=float)))) if im_ is not None else 1.0
+        # raw excursion of the trajectory: beyond ~1e6 x the scale of the positions (e.g. after an injected
+        # tail draw of the momentum) floating point no longer resolves the return path
+        excursion = (eps_used or 0.0) * max(1, ns) * imax_ * float(np.max(np.abs(r0)))
         tame = eps_used is not None and _stiffness(h, eps_used) <= 3.0 and \
-            float(np.max(np.abs(r1))) <= 100.0 * (1.0 + float(np.max(np.abs(r0))))
+            float(np.max(np.abs(r1))) <= 100.0 * (1.0 + float(np.max(np.abs(r0)))) and \
+            excursion <= 1e6 * (1.0 + float(np.max(np.abs(t0))))
         if err is not None and not tame:
             stats["hmc_reverse_moves_skipped_unstable"] += 1
         if err is not None and tame:
